@@ -1,4 +1,6 @@
 import PvlModel.Model.Spec
+import PvlModel.Lemmas.SpecCount
+import PvlModel.Lemmas.ParseSpec
 
 /-!
 # C05 — ill-formed text is rejected, never silently truncated
@@ -74,6 +76,28 @@ example : (sModule omni (index [w 97, eq, w 98, eq, val true])).isSome = true :=
 example : (sModule strict (index [w 97, eq, val true, semi, beginKw false, eq, w 111, w 98, eq, lpar, val true,
     comma, lbrace, rbrace, rpar, units, endKw false, eq, w 111, endStmt, junk, lpar])).isSome = true := by decide
 
+/-- **the oracle enforces bracket structure** (`Lemmas/SpecCount.lean`): a tree is returned only if the
+    tokens consumed — the whole text, or the text before an END statement — contain as many `(` as `)` and
+    as many `{` as `}`, one pair per sequence / set node.  An unterminated sequence or set can therefore
+    never be "accepted" by the specification the real loader is judged against. -/
+theorem C05_spec_brackets_balance (d : Dialect) (ts : Toks) (items : List SItem) (h : sModule d ts = some items) :
+    ∃ pre r, ts = pre ++ r ∧ (r = [] ∨ ∃ i rest, r = (i, .endStmt) :: rest) ∧
+      cnt .lpar pre = cnt .rpar pre ∧ cnt .lbrace pre = cnt .rbrace pre := by
+  obtain ⟨pre, r, h1, h2, a, b, c, e⟩ := sModule_balanced d ts items h
+  exact ⟨pre, r, h1, h2, by omega, by omega⟩
+
+/-- a text whose `(` are not matched is rejected by the specification, whatever else it contains -/
+theorem C05_spec_rejects_unbalanced (d : Dialect) (ts : Toks)
+    (hno : ∀ p ∈ ts, p.2 ≠ STok.endStmt) (hu : cnt .lpar ts ≠ cnt .rpar ts) : sModule d ts = none := by
+  cases h : sModule d ts with
+  | none => rfl
+  | some items =>
+    exfalso
+    obtain ⟨pre, r, h1, h2, a, _⟩ := C05_spec_brackets_balance d ts items h
+    rcases h2 with rfl | ⟨i, rest, rfl⟩
+    · simp at h1; subst h1; exact hu a
+    · exact hno (i, .endStmt) (by rw [h1]; simp) rfl
+
 end Spec
 /-- **the production order the model follows is the one in the source** (`Gen.moduleProductions`,
     `Gen.valueProductions` are read from `parse_module` / `parse_value` with `ast` on every run): block,
@@ -84,5 +108,17 @@ theorem C05_production_order :
     Gen.moduleProductionCatches = ["LexerError", "ValueError"] ∧
     Gen.valueProductions = ["parse_set", "parse_sequence", "parse_value_post_hook"] ∧
     Gen.valueProductionCatches = ["LexerError", "ValueError"] := by decide
+
+/-- **C05, nothing before END is left unread**: the loader-level consequence of the Hoare specifications
+    (`parse_spec_total`): a module is returned only when the lexer was driven to the end of the text without
+    error, or the last token it was asked for is the END statement — no token before END stays unread, and
+    a lexical error before END is never swallowed -/
+theorem C05_no_silent_truncation (g : Grammar) (d : Dec) (kind : ParserKind) (prior : List Int) (text : Str)
+    (m : Items) (h : (parseWith g d kind prior text).outcome = .ok m) :
+    ((parseWith g d kind prior text).exhausted = true ∧ (lexAll g d (docOf kind text)).2 = .eof) ∨
+    (∃ t, (parseWith g d kind prior text).last = some t ∧ Tok.isEndStatement g t.text = true) := by
+  have hs := parse_spec_total g d kind prior text
+  rw [h] at hs
+  exact hs
 
 end Pvl
